@@ -1,2 +1,75 @@
-//! whole-world runs of `start()` (filled in below)
-pub fn main(_args: &[String]) -> i32 { 2 }
+//! `tbh run`: one whole-world run of `torrent_bootstrap::start()` under the fs controller.
+//!
+//!   tbh run --export <dir> [--scan <dir>]... [--torrent <file>]... [--threads n] [--resize]
+//!           [--fault i]... [--crash k,j]
+//!
+//! The world (directories, files, hard links, .torrent files) is laid out on disk by the driver beforehand.
+//! stdout carries the tool's own progress lines, then the controller's log (`LOG ...`), the load results
+//! (`LOADED i ok|err`) and finally `RESULT ok|err|panic`. An emulated crash aborts the process after
+//! printing the log (see verif_shim::ctl::crash).
+
+use std::panic::{catch_unwind, AssertUnwindSafe};
+use std::path::PathBuf;
+use torrent_bootstrap::verif_shim::ctl;
+use torrent_bootstrap::{OrchestratorOptions, Torrent};
+
+pub fn main(args: &[String]) -> i32 {
+    let mut export = PathBuf::new();
+    let mut scan: Vec<PathBuf> = Vec::new();
+    let mut torrents: Vec<PathBuf> = Vec::new();
+    let mut threads = 1usize;
+    let mut resize = false;
+    let mut config = ctl::Config::default();
+    let mut i = 0;
+    while i < args.len() {
+        match args[i].as_str() {
+            "--export" => { export = PathBuf::from(&args[i + 1]); i += 2; }
+            "--scan" => { scan.push(PathBuf::from(&args[i + 1])); i += 2; }
+            "--torrent" => { torrents.push(PathBuf::from(&args[i + 1])); i += 2; }
+            "--threads" => { threads = args[i + 1].parse().unwrap(); i += 2; }
+            "--resize" => { resize = true; i += 1; }
+            "--fault" => { config.faults.push(args[i + 1].parse().unwrap()); i += 2; }
+            "--crash" => {
+                let mut it = args[i + 1].split(',');
+                let k: usize = it.next().unwrap().parse().unwrap();
+                let j: usize = it.next().unwrap_or("0").parse().unwrap();
+                config.crash = Some((k, j));
+                i += 2;
+            }
+            other => { eprintln!("unknown argument {}", other); return 2; }
+        }
+    }
+
+    // load the torrents the way bin.rs does: a file that fails to load is reported and skipped
+    let mut loaded: Vec<Torrent> = Vec::new();
+    for (index, path) in torrents.iter().enumerate() {
+        let bytes = std::fs::read(path).expect("torrent file written by the driver");
+        match catch_unwind(AssertUnwindSafe(|| Torrent::from_bytes(&bytes))) {
+            Ok(Ok(t)) => { println!("LOADED {} ok", index); loaded.push(t); }
+            Ok(Err(_)) => println!("LOADED {} err", index),
+            Err(_) => println!("LOADED {} panic", index),
+        }
+    }
+
+    let options = OrchestratorOptions {
+        torrents: loaded,
+        scan_directories: scan,
+        export_directory: export,
+        threads,
+        resize_export_files: resize,
+    };
+
+    ctl::install(config);
+    std::panic::set_hook(Box::new(|info| { eprintln!("PANIC {}", info); }));
+    let result = catch_unwind(AssertUnwindSafe(|| torrent_bootstrap::start(options)));
+    let log = ctl::uninstall();
+    for line in &log {
+        println!("LOG {}", line);
+    }
+    match result {
+        Ok(Ok(())) => println!("RESULT ok"),
+        Ok(Err(_)) => println!("RESULT err"),
+        Err(_) => println!("RESULT panic"),
+    }
+    0
+}
